@@ -3,6 +3,7 @@ package exec
 import (
 	"fmt"
 	"runtime/debug"
+	"sort"
 	"sync"
 
 	"golang.org/x/tools/go/ssa"
@@ -29,6 +30,8 @@ type gor struct {
 	waitOn func() bool
 	what   string
 	depth  int
+	lastRun int // value of the switch counter when this goroutine last stopped running
+	settle  bool // waiting for quiescence: runs only when no other goroutine can
 }
 
 type killed struct{}
@@ -40,6 +43,7 @@ type scheduler struct {
 	choices int
 	preempt int
 	switches int
+	order   int // default continuation: 0 lowest id, 1 longest waiting (FIFO), 2 highest id
 	wg      sync.WaitGroup
 	nextID  int
 }
@@ -128,6 +132,17 @@ func (ex *Exec) block(cond func() bool, what string) {
 	}
 }
 
+// settle parks the current goroutine until no other goroutine can run (the
+// harness's "let the background work finish").
+func (ex *Exec) settle() {
+	g := ex.sch.cur
+	g.settle = true
+	g.state = gRunnable
+	g.what = "waiting for quiescence"
+	ex.handOff(g, false)
+	g.settle = false
+}
+
 // yield lets other goroutines run; the current one stays runnable.
 func (ex *Exec) yield() {
 	g := ex.sch.cur
@@ -151,11 +166,28 @@ func (ex *Exec) handOff(g *gor, done bool) {
 	s := ex.sch
 	var cands []*gor
 	for _, x := range s.gs {
-		if x != g && x.canRun() {
+		if x != g && x.canRun() && !x.settle {
 			cands = append(cands, x)
 		}
 	}
-	if !done && g.canRun() {
+	if len(cands) == 0 && !(!done && g.canRun() && !g.settle) {
+		// nobody else can run: goroutines waiting for quiescence continue now
+		for _, x := range s.gs {
+			if x != g && x.canRun() && x.settle {
+				cands = append(cands, x)
+			}
+		}
+		if !done && g.settle && g.canRun() {
+			cands = append(cands, g)
+		}
+	}
+	switch s.order {
+	case 1:
+		sort.SliceStable(cands, func(i, j int) bool { return cands[i].lastRun < cands[j].lastRun })
+	case 2:
+		sort.SliceStable(cands, func(i, j int) bool { return cands[i].id > cands[j].id })
+	}
+	if !done && g.canRun() && !g.settle {
 		// the current goroutine may simply continue; offering it last keeps the
 		// default schedule "run others first" after a yield
 		cands = append(cands, g)
@@ -216,6 +248,7 @@ func (ex *Exec) switchTo(g, next *gor, done bool) {
 	next.state = gRunnable
 	s.cur = next
 	s.switches++
+	g.lastRun = s.switches
 	g.depth = ex.depth
 	ex.depth = next.depth
 	next.wake <- 1
@@ -252,12 +285,18 @@ func (ex *Exec) preemptPoint(what string) {
 	g := s.cur
 	var others []*gor
 	for _, x := range s.gs {
-		if x != g && x.canRun() {
+		if x != g && x.canRun() && !x.settle {
 			others = append(others, x)
 		}
 	}
 	if len(others) == 0 {
 		return
+	}
+	switch s.order {
+	case 1:
+		sort.SliceStable(others, func(i, j int) bool { return others[i].lastRun < others[j].lastRun })
+	case 2:
+		sort.SliceStable(others, func(i, j int) bool { return others[i].id > others[j].id })
 	}
 	if ex.choose(2, nil, nil) == 0 {
 		return
